@@ -460,7 +460,10 @@ class BigObsScenario(NetScenario):
         if not kinds and st.horizon_hit is False:
             # still observing: the freshest version that arrived must have been delivered
             fresh = max(st.arrived) if st.arrived else None
-            if fresh is not None and fresh > 1 and (not vs or vs[-1] != fresh) and not fin_delivered:
+            # if the rest of that body was served from a newer representation whose own notification never arrived, the
+            # body of the freshest notification that did arrive cannot be assembled any more: nothing to demand
+            spoiled = fresh is not None and any(v > fresh for v, n in st.srv.fetches)
+            if fresh is not None and fresh > 1 and (not vs or vs[-1] != fresh) and not fin_delivered and not spoiled:
                 st.violations.append(Violation("freshest-notification-not-delivered", "v%d" % fresh, got, "protocol.py:BlockwiseRequest._run_observation", {}, key="fresh"))
         if kinds == ["cancelled"] and fin_delivered and "fin" not in got:
             st.violations.append(Violation("final-response-not-delivered", "final response, then the cancellation signal", got,
